@@ -26,6 +26,12 @@ def tables(grid, tid):
         "corners": [[int(round(float(x))) for x in c] for c in np.asarray(grid.cell_corners)]
         if np.allclose(np.asarray(grid.cell_corners), np.round(np.asarray(grid.cell_corners))) else [[-9] * dim],
         "cci": [[[int(k) for k in side] for side in f] for f in np.asarray(grid.cell_corner_indices)],
+        # scalar bookkeeping and the array-shaped face numbering consumers reshape with
+        "nf": int(grid.num_faces), "nc": int(grid.num_cells),
+        "fshape": [[int(x) for x in grid.faces_shape[d]] for d in range(dim)],
+        "fidx_ok": int(all(tuple(np.asarray(grid.face_index[d]).shape) == tuple(grid.faces_shape[d])
+                           and np.array_equal(np.ravel(np.asarray(grid.face_index[d]), "F"), np.asarray(grid.faces[d])) for d in range(dim))),
+        "kinds": "".join(np.asarray(a).dtype.kind for a in (grid.connectivity, grid.reverse_connectivity, grid.cell_corner_indices, grid.cell_index)),
     }
 
 
